@@ -1617,6 +1617,13 @@ func (h *Hashgraph) ReadWireInfo(wevent WireEvent) (*Event, error) {
 //CheckBlock returns an error if the Block does not contain valid signatures
 //from MORE than 1/3 of participants
 func (h *Hashgraph) CheckBlock(block *Block, peerSet *peers.PeerSet) error {
+	return h.CheckBlockWithTrusted(block, peerSet, nil)
+}
+
+// CheckBlockWithTrusted is CheckBlock where, unless trusted is nil, only the
+// signatures of validators listed in trusted (keyed like PeerSet.ByPubKey) are
+// counted.
+func (h *Hashgraph) CheckBlockWithTrusted(block *Block, peerSet *peers.PeerSet, trusted map[string]bool) error {
 	psh, err := peerSet.Hash()
 	if err != nil {
 		return err
@@ -1639,6 +1646,12 @@ func (h *Hashgraph) CheckBlock(block *Block, peerSet *peers.PeerSet) error {
 			h.logger.WithFields(logrus.Fields{
 				"validator": validatorHex,
 			}).Warning("Verifying Block signature. Unknown validator")
+			continue
+		}
+		if trusted != nil && !trusted[validatorHex] {
+			h.logger.WithFields(logrus.Fields{
+				"validator": validatorHex,
+			}).Warning("Verifying Block signature. Validator not in any known peer-set")
 			continue
 		}
 		ok, _ := block.Verify(s)
